@@ -249,6 +249,9 @@ fn cop_strategy() -> impl Strategy<Value = COp> {
 pub fn ccase_strategy() -> impl Strategy<Value = CCase> {
     (prop::collection::vec(prop::collection::vec(cop_strategy(), 1..4), 2..4), prop::collection::vec(prop_oneof![3 => Just(0u16), 2 => any::<u16>()], 0..40)).prop_map(|(clients, schedule)| CCase { clients, schedule, snapshot: None, on_disk_prelude: false })
         .prop_flat_map(|c| prop_oneof![2 => Just(None), 1 => Just(Some(false)), 1 => Just(Some(true))].prop_map(move |s| CCase { snapshot: s, ..c.clone() }))
+        // (half of the snapshot cases meet the on-disk prelude: the snapshot has six keys to store around the clients' keys,
+        // which gives the clients room between its copy of the keys and its put-back of a key)
+        .prop_flat_map(|c| any::<bool>().prop_map(move |p| CCase { on_disk_prelude: p && c.snapshot.is_some(), ..c.clone() }))
 }
 
 /// C06's use of this engine: every case has a snapshot task, the on-disk prelude and the restart phase; what the
@@ -257,7 +260,11 @@ pub fn ccase_strategy_for_c06() -> impl Strategy<Value = CCase> {
     (ccase_strategy(), any::<bool>()).prop_map(|(c, reclaim)| CCase { snapshot: Some(c.snapshot.unwrap_or(reclaim)), on_disk_prelude: true, ..c })
 }
 
+/// the restart phase belongs to C06: C02's own runs use the prelude for the replies only
+static JUDGE_RESTART: std::sync::atomic::AtomicBool = std::sync::atomic::AtomicBool::new(false);
+
 pub fn conc_guard_for_c06(ctx: &Ctx, c: &CCase) -> Outcome {
+    JUDGE_RESTART.store(true, std::sync::atomic::Ordering::SeqCst);
     let mut o = conc_guard(ctx, c);
     // (only the restart phase is judged here: the replies are C02's)
     o.fail = match o.fail.take() {
@@ -584,7 +591,7 @@ pub fn run_conc(ctx: &Ctx, case: &CCase) -> Result<Outcome, String> {
         }
     }
     let mut durability_judged = false;
-    if fail.is_none() && case.on_disk_prelude && case.snapshot.is_some() {
+    if fail.is_none() && case.on_disk_prelude && case.snapshot.is_some() && JUDGE_RESTART.load(std::sync::atomic::Ordering::SeqCst) {
         // a further snapshot completes with nobody writing, then the node is started again: C06's promise for a snapshot
         // that ran while clients were writing
         use std::panic::{catch_unwind, AssertUnwindSafe};
